@@ -132,6 +132,10 @@ class Disk(object):
         self.bufsize = 8192
         self.chunk = 8192
         self.raw_calls = 0
+        self.replace_at = None   # raw read index at which a competing writer replaces the file
+        self.replace_with = None
+        self.replaced = None
+        self.raw_reads = 0
         self.crash_at = None     # raw write index before which the process "crashes"
         self.frozen = False      # after a crash nothing reaches the disk any more
         self.raw_writes = 0
@@ -150,6 +154,13 @@ class Disk(object):
         self.close_fail = bool(io_plan.get("close_fail"))
         self.crash_at = io_plan.get("crash_at")
         self.raw_writes = 0
+        self.raw_reads = 0
+        self.replaced = None
+        self.replace_at = io_plan.get("replace_at")
+        self.replace_with = None
+        if self.replace_at is not None and io_plan.get("replace_with"):
+            snap = [(k, dec(v)) for k, v in sorted(io_plan["replace_with"].items())]
+            self.replace_with = ("".join("%s %s\n" % (k, str(v)) for k, v in snap).encode("utf-8"), snap)
         self.fired = {}
         self.unrecoverable = False
         self.in_close = False
@@ -183,6 +194,9 @@ class SimRaw(io.RawIOBase):
             disk.files[path] = bytearray()
         elif mode == "a":
             disk.files.setdefault(path, bytearray())
+        # an open handle refers to the file (inode) it opened: a competing writer that replaces the path
+        # (write-new-then-rename) does not change what this handle reads
+        self.buf = disk.files.get(path)
 
     def readable(self):
         return self._r
@@ -227,7 +241,7 @@ class SimRaw(io.RawIOBase):
             if n > room:
                 d.fire("enospc_partial")
                 n = room
-        d.files[self.path] += bytes(b[:n])
+        self.buf += bytes(b[:n])
         return n
 
     def readinto(self, b):
@@ -240,7 +254,14 @@ class SimRaw(io.RawIOBase):
             d.fire("eio_read")
             d.unrecoverable = True
             raise OSError(errno.EIO, "simulated EIO on read")
-        data = d.files[self.path]
+        if d.replace_at is not None and d.raw_reads == d.replace_at and d.replace_with is not None:
+            # the competing writer replaces the file while we are in the middle of reading it
+            d.files[self.path] = bytearray(d.replace_with[0])
+            d.replaced = d.replace_with[1]
+            d.replace_with = None
+            d.fire("replaced_during_read")
+        d.raw_reads += 1
+        data = self.buf
         n = min(len(b), len(data) - self.pos)
         if isinstance(dec_, list) and dec_[0] == "short" and n > 0:
             if dec_[1] < n:
@@ -327,9 +348,17 @@ def make_open(disk, real_open):
 
 
 # ----------------------------------------------------------------------------- generator
-def gen_plan(rng, side, kinds):
+def gen_plan(rng, side, kinds, names=None, numstr=True):
     """io plan for one save/load; kinds = enabled fault kinds of this run"""
     p = {}
+    if side == "r" and names and "foreign" in kinds and rng.chance(0.2):
+        # a competing writer replaces the file while it is being read (possibly combined with the faults below)
+        p["replace_at"] = rng.choice([0, 0, 1, 1, 2, 3])
+        p["replace_with"] = {nm: enc(gen_value(rng, numstr)) for nm in rng.sample(names, rng.between(1, min(5, len(names))))}
+        if rng.chance(0.5):
+            # ... and the read fails right afterwards with a transient-looking error
+            p["plan"] = ["ok"] * p["replace_at"] + [["short", rng.choice([3, 7, 11, 20])], rng.choice(["eio", "eintr", "eio"])]
+            return p
     if not kinds or rng.chance(0.35):
         return p
     plan = []
@@ -452,12 +481,12 @@ def generate(rng, tier, index):
             else:
                 ops.append(["save", o, path, gen_plan(rng, "w", kinds)])
         elif k == "load":
-            ops.append(["load", o, path, gen_plan(rng, "r", kinds)])
+            ops.append(["load", o, path, gen_plan(rng, "r", kinds, names, numstr)])
         elif k == "read_par_file":
             if len(objs) >= n_obj:
-                ops.append(["load", o, path, gen_plan(rng, "r", kinds)])
+                ops.append(["load", o, path, gen_plan(rng, "r", kinds, names, numstr)])
             else:
-                ops.append(["read_par_file", next_obj, path, gen_plan(rng, "r", kinds)])
+                ops.append(["read_par_file", next_obj, path, gen_plan(rng, "r", kinds, names, numstr)])
                 objs.append(next_obj)
                 next_obj += 1
     # which steps are followed by a read-back through the getters (a read is an event too: a lazily
@@ -593,9 +622,11 @@ def execute(trace):
         finally:
             merge_fired()
             unrec = disk.unrecoverable
+            last_replaced[0] = disk.replaced
             disk.disarm()
         return raised, unrec
 
+    last_replaced = [None]
     logging.disable(logging.CRITICAL)
     P.open = sim_open
     builtins.open = sim_open
@@ -837,6 +868,15 @@ def execute(trace):
                             before = None if kind == "read_par_file" else {k: list(v) for k, v in m.p.items()}
                             r, unrec = do_load(target, path, plan, site)
                             outcome = r or "ok"
+                            snaps = [st[1]] if st[0] != "absent" else []
+                            if last_replaced[0] is not None:
+                                # the file was replaced while the load was in progress: the load may deliver the old
+                                # file or the new one (as a whole), and the path now holds the new one
+                                snaps.append(last_replaced[0])
+                                paths[path] = ("foreign", last_replaced[0])
+                                if st[0] == "absent":
+                                    st = ("foreign", last_replaced[0])
+                                    snaps = [last_replaced[0]]
                             if st[0] == "absent":
                                 if r is None:
                                     raise _Violation("load of a missing file returned normally", site, path)
@@ -851,7 +891,8 @@ def execute(trace):
                                     touched = []
                                 else:
                                     # each key old or file value, nothing else
-                                    exp, amb = expected_from_snapshot(st[1])
+                                    exps = [expected_from_snapshot(sn) for sn in snaps]
+                                    amb = set().union(*[e[1] for e in exps]) if exps else set()
                                     got = o.get_parameters()
                                     for k in set(list(got.keys()) + list(m.p.keys())):
                                         cands = []
@@ -859,8 +900,9 @@ def execute(trace):
                                             cands.append(before[k][0])
                                             if isinstance(before[k][0], str):
                                                 cands.append(coerce(before[k][0]))
-                                        if k in exp:
-                                            cands.append(exp[k])
+                                        for exp, _a in exps:
+                                            if k in exp:
+                                                cands.append(exp[k])
                                         if k not in got:
                                             if k in before:
                                                 raise _Violation("failed load removed a key", site, k)
@@ -872,7 +914,26 @@ def execute(trace):
                                     count("relax.resync_after_failed_load")
                             else:
                                 count("load.ok")
-                                exp, amb = expected_from_snapshot(st[1])
+                                exp, amb = expected_from_snapshot(snaps[0])
+                                if len(snaps) > 1:
+                                    # which of the two whole files did the load deliver?  (anything else is a mapping
+                                    # nobody ever saved)
+                                    got = target.get_parameters()
+                                    chosen = None
+                                    for sn in snaps:
+                                        e2, a2 = expected_from_snapshot(sn)
+                                        base_keys = set() if kind == "read_par_file" else set(before.keys())
+                                        if set(got.keys()) == base_keys | set(e2.keys()) and all(
+                                                (k in a2) or same(got[k], e2[k]) for k in e2):
+                                            chosen = (e2, a2)
+                                            break
+                                    if chosen is None:
+                                        raise _Violation("load returned a mapping that is neither the old nor the new file", site,
+                                                         "loaded keys %s; old file %s; new file %s" % (
+                                                             sorted(got.keys()), sorted(expected_from_snapshot(snaps[0])[0]),
+                                                             sorted(expected_from_snapshot(snaps[1])[0])))
+                                    exp, amb = chosen
+                                    count("probe.load_during_replace_delivered_whole_file")
                                 if kind == "read_par_file":
                                     objs[oid] = target
                                     models[oid] = _Model()
